@@ -81,10 +81,16 @@ structure Cfg where
   mutable `constants` / `points` dictionaries to every product, and `configure_settings` writes into them in place.
   Irrelevant when nothing is shared. -/
   sharedIsScenarioDicts : Bool := false
+  /-- a third thing the products of one server can reach when `instancesShareNothing = false`: HANDLER-level state —
+  a class attribute of the server holding the defaults of the optional parts of a begin-session request, updated in
+  place: a begin-session whose body has no `settings` key gets the settings of the last begin-session that carried
+  the key, whichever instance that addressed. -/
+  sharedIsHandlerDefaults : Bool := false
 deriving DecidableEq, Repr
 
 inductive Req where
-  | beginSession (st : Store)     -- settings: `[]` = none
+  | beginSession (st : Store)     -- the body HAS a `settings` key (possibly empty)
+  | beginOmit                     -- the body has NO `settings` key
   | runStep (st : Store)
   | results
   | endSession
@@ -150,22 +156,24 @@ process-wide cache (module globals). With `instancesShareNothing` it is neither 
 structure Proc where
   tbl : Store
   scn : Store
+  dflt : Store := []     -- handler-level state: the server class's default `settings` of a begin-session request
 deriving DecidableEq, Repr
 
 /-- write settings into the MODEL of an object (`change_equation` / `change_points`).  Returns (process cell, own store). -/
 def writeMod (c : Cfg) (g : Proc) (m upd : Store) : Proc × Store :=
   if c.instancesShareNothing then (g, Store.update m upd)
-  else if c.sharedIsScenarioDicts then (g, Store.update m upd)
+  else if c.sharedIsScenarioDicts || c.sharedIsHandlerDefaults then (g, Store.update m upd)
   else ({ g with tbl := Store.update g.tbl (ptsOf upd) }, Store.update m (constsOf upd))
 
 /-- the settings a simulation on the object reads -/
 def effOf (c : Cfg) (g : Proc) (m : Store) : Store :=
-  if c.instancesShareNothing then m else if c.sharedIsScenarioDicts then m else m ++ g.tbl
+  if c.instancesShareNothing then m else if c.sharedIsScenarioDicts || c.sharedIsHandlerDefaults then m else m ++ g.tbl
 
 /-- write settings into the SCENARIO dictionaries of an object (`configure_settings`, `/run` settings) -/
 def writeScn (c : Cfg) (g : Proc) (scn upd : Store) : Proc × Store :=
   if c.instancesShareNothing then (g, Store.update scn upd)
   else if c.sharedIsScenarioDicts then ({ g with scn := Store.update g.scn upd }, scn)
+  else if c.sharedIsHandlerDefaults then (g, Store.update scn upd)
   else ({ g with tbl := Store.update g.tbl (ptsOf upd) }, Store.update scn (constsOf upd))
 
 /-- the scenario-level settings an object reads: its own dictionaries, or the process-wide ones -/
@@ -221,6 +229,16 @@ def stepInst (c : Cfg) (ad : Bool) (g : Proc) (src : Obj) (x : Inst) : Req → P
   | .beginSession st =>
       let r := revive c ad g src x
       if r.2.1.alive then
+        -- the handler remembers the settings of the request in its (class-level) defaults — defective mechanism only
+        let g1 : Proc := if !c.instancesShareNothing && c.sharedIsHandlerDefaults then { r.1 with dflt := st } else r.1
+        let b := objBegin c g1 r.2.1.obj st
+        (b.1, { r.2.1 with obj := b.2 }, .started, r.2.2)
+      else (r.1, r.2.1, .invalid, r.2.2)
+  | .beginOmit =>
+      let r := revive c ad g src x
+      if r.2.1.alive then
+        -- no `settings` key: the handler's default — empty, or what the last request with the key left there
+        let st : Store := if !c.instancesShareNothing && c.sharedIsHandlerDefaults then r.1.dflt else []
         let b := objBegin c r.1 r.2.1.obj st
         (b.1, { r.2.1 with obj := b.2 }, .started, r.2.2)
       else (r.1, r.2.1, .invalid, r.2.2)
@@ -317,6 +335,7 @@ def stepNone (c : Cfg) (s : Server) (i : Nat) : Req → Server × Option Resp
 /-- the handlers that call `_ensure_instance_exists` -/
 def Req.ensures : Req → Bool
   | .beginSession _ => true
+  | .beginOmit => true
   | .runStep _ => true
   | .results => true
   | .endSession => true
